@@ -39,6 +39,7 @@ ApiRes(dd, c) ==
     [] c.op = "tensorSelf" -> Ok(Tensor(dd, dd))
     [] c.op = "dagger"   -> Ok(Dagger(dd))
     [] c.op = "slice"    -> Ok(PySlice(dd, c.i, c.j))
+    [] c.op = "rslice"   -> Ok(PyRSlice(dd, c.i, c.j))
     [] c.op = "index"    ->
          LET k == PyIdx(c.i, n) IN
          IF k < 0 \/ k >= n THEN Err("IndexError", dd)
